@@ -44,7 +44,7 @@ def render_item(item, sp=' ') -> str:
     if t == 'instr':
         return isagen.render_statement(item['mn'], item['ops'], sp=sp)
     if t == 'data':
-        return item['d'] + ' ' + ', '.join(exprs.render(e, sp) for e in item['vals'])
+        return item['d'] + ' ' + item.get('sep', ', ').join(exprs.render(e, sp) for e in item['vals'])
     if t == 'str':
         s = render_string(item['chars'], item.get('q', '"'))
         return s if item['d'] == 'bare' else item['d'] + ' ' + s
@@ -604,6 +604,24 @@ def general_program(draw, cfg, max_steps=30, extra=(), disable=()):
                 b.add({'t': 'org', 'e': b.lit(back)})
                 local_defined = set()
                 feats.add('label-inside-an-earlier-line')
+        elif choice == 'zonecursor' and zones and not muted:
+            # bytes of the GLOBAL zone are laid across the place where a named zone stands; that zone is then selected and
+            # a line without bytes is assembled there (its address lies inside the bytes of another line)
+            others = [z for z in zones if z != b.zone()]
+            if others and not b.dead:
+                zn = d(st.sampled_from(others))
+                c = b.lay.zones[zn][2]
+                if c - 2 >= b.lo and c + 4 <= b.hi and all(e <= c - 2 or s >= c + 4 for s, e in b.occupied()):
+                    b.add({'t': 'org', 'e': b.lit(c - 2)})
+                    b.add({'t': 'data', 'd': '.byte', 'vals': [['num', 0xC1, 'hex$'], ['num', 0xC2, 'hex$'], ['num', 0xC3, 'hex$'], ['num', 0xC4, 'hex$']]})
+                    b.add({'t': 'data', 'd': '.byte', 'vals': [['num', 0xC5, 'hex$']]})
+                    b.add({'t': 'memzone', 'zone': zn})
+                    b.add(d(st.sampled_from([{'t': 'fill', 'n': ['num', 0, 'dec'], 'v': ['num', 7, 'dec']}, {'t': 'zero', 'n': ['num', 0, 'dec']}])))
+                    local_defined = set()
+                    feats.add('byte-less-line-inside-the-bytes-of-another-line')
+                    spot = b.free_spot(8)
+                    if spot is not None and not b.dead:
+                        b.add({'t': 'org', 'e': b.lit(spot)})
         elif choice == 'orgzone-outside' and zones:
             # an origin relative to a zone that lands before its start or behind its end, and a byte placed from there
             zn = d(st.sampled_from(zones))
